@@ -19,6 +19,8 @@ type outcome struct {
 	st     *State
 	result Value // nil, single value or TupleV
 	panics bool  // ended in explicit panic
+	child  *regionInfo // the path reached the entry of a child region
+	left   bool        // the path left the region under verification
 }
 
 // addOblig records a proof obligation at the current state.
